@@ -55,3 +55,15 @@ Example c04_wrap :
   let fs := map (fun k => Data (N.of_nat k mod 8) 0 0 [N.of_nat k]) (seq 0 17) in
   ups (snd (rx_frames 0 fs)) = map (fun k => [N.of_nat k]) (seq 0 17) /\ fst (rx_frames 0 fs) = 1.
 Proof. vm_compute. split; reflexivity. Qed.
+
+(* ---- the tie to the source text ------------------------------------------------------------------
+   gen/GenAshRxFn.v is emitted on every run from the Python AST of AshProtocol.frame_received,
+   data_frame_received, ack_/nak_/rst_/rstack_/error_frame_received and _enter_failed_state
+   (harness/pysrc.py: self attributes are state variables, recognised calls are effects in order).
+   The receiver model every theorem above speaks of changes the expected number exactly as the
+   source does and makes the same writes and upward calls in the same order. *)
+Require Import BV.gen.GenAshRxFn BV.proofs.AshRxSrc_proofs.
+Theorem c04_source_receiver : forall rx tx fl code f,
+  let '(rx', _, _, _, eff) := py_frame_received (rx, tx, fl, code) f in
+  rx' = fst (rx_frame rx f) /\ flat_map eff_obs eff = filter is_obs (snd (rx_frame rx f)).
+Proof. exact src_rx_frame. Qed.
